@@ -24,18 +24,18 @@ func lte(root map[string]any, at any, args ...any) any {
 	if 0 < len(args) {
 		switch t0 := evalArg(root, at, args[0]).(type) {
 		case float32, float64, int, int8, int16, int32, int64, uint, uint8, uint16, uint32, uint64:
-			f0, _ := asFloat(t0)
+			var prev any = t0
 			for _, arg := range args[1:] {
 				v := evalArg(root, at, arg)
-				f, ok := asFloat(v)
+				c, ok := compareNums(prev, v)
 				if !ok {
 					panic(fmt.Errorf("lte of a number must be another number, not %T", v))
 				}
-				if f0 > f {
+				if 0 < c {
 					answer = false
 					break
 				} else {
-					f0 = f
+					prev = v
 				}
 			}
 		case string:
